@@ -6,6 +6,9 @@
 // packages.lock.json) a generator (gen_<format>.go) takes an ordered tuple of distinct
 // (name, version) records drawn from a 6-entry pool of alphabet corners plus a layout
 // vector, and WRITES the file together with the ground-truth multiset; it never parses.
+// Every pool contains one pair of records whose name+version concatenations are equal
+// (e.g. ("rake","13.0.6") / ("rake1","3.0.6")), so a de-duplication or map key built without
+// a separator merges them; several pools contain the same name at two versions.
 // The full product
 //
 //	every ordered n-tuple of distinct pool entries, n = 0..2 (quick) / 0..4 (thorough; 0..3 for the
